@@ -290,3 +290,122 @@ func blankNames(s string, names map[string]bool) string {
 		return w
 	})
 }
+
+// Loop ordinals.  Contracts name the N-th loop of a function.  With -update-claims the loops of
+// every function under contract are recorded (claims/loops.json) by a fingerprint: the loop
+// header with the names of locals blanked.  At check time the current loops are aligned with the
+// recorded ones (longest common subsequence over fingerprints), so that a loop added or removed
+// elsewhere in the function does not shift the clauses of the others.
+
+func loopsOf(t *Target) []string {
+	var body ast.Node
+	if t.lit != nil {
+		body = t.lit.Body
+	} else if t.decl != nil && t.decl.Body != nil {
+		body = t.decl.Body
+	}
+	if body == nil || t.pkg == nil {
+		return nil
+	}
+	names := map[string]bool{}
+	for _, l := range localsOf(t) {
+		names[l.Name] = true
+	}
+	var out []string
+	ast.Inspect(body, func(n ast.Node) bool {
+		switch x := n.(type) {
+		case *ast.FuncLit:
+			return false
+		case *ast.ForStmt:
+			fp := "for "
+			if x.Init != nil {
+				fp += nodeStr(x.Init)
+			}
+			fp += "; "
+			if x.Cond != nil {
+				fp += nodeStr(x.Cond)
+			}
+			fp += "; "
+			if x.Post != nil {
+				fp += nodeStr(x.Post)
+			}
+			out = append(out, blankNames(fp, names))
+		case *ast.RangeStmt:
+			out = append(out, blankNames("range "+nodeStr(x.X), names))
+		}
+		return true
+	})
+	return out
+}
+
+func loopsFile(verif string) string { return filepath.Join(verif, "claims", "loops.json") }
+
+func loadLoops(verif string) map[string][]string {
+	m := map[string][]string{}
+	if b, err := os.ReadFile(loopsFile(verif)); err == nil {
+		json.Unmarshal(b, &m)
+	}
+	return m
+}
+
+func saveLoops(verif string, m map[string][]string) {
+	b, _ := json.MarshalIndent(m, "", " ")
+	os.WriteFile(loopsFile(verif), append(b, '\n'), 0o644)
+}
+
+// loopMap: current ordinal (1-based) -> recorded ordinal; current loops without a partner get
+// an ordinal above 1000 (no clauses apply to them).  nil means identity.
+func loopMap(base, cur []string) map[int]int {
+	if len(base) == 0 {
+		return nil
+	}
+	same := len(base) == len(cur)
+	if same {
+		for i := range base {
+			if base[i] != cur[i] {
+				same = false
+			}
+		}
+	}
+	if same || len(base) == len(cur) {
+		// same number of loops: the positions are taken as they are (a loop whose header was
+		// rewritten keeps its clauses)
+		return nil
+	}
+	n, m := len(base), len(cur)
+	l := make([][]int, n+1)
+	for i := range l {
+		l[i] = make([]int, m+1)
+	}
+	for i := n - 1; i >= 0; i-- {
+		for k := m - 1; k >= 0; k-- {
+			if base[i] == cur[k] {
+				l[i][k] = l[i+1][k+1] + 1
+			} else if l[i+1][k] >= l[i][k+1] {
+				l[i][k] = l[i+1][k]
+			} else {
+				l[i][k] = l[i][k+1]
+			}
+		}
+	}
+	out := map[int]int{}
+	i, k := 0, 0
+	for i < n && k < m {
+		switch {
+		case base[i] == cur[k]:
+			out[k+1] = i + 1
+			i++
+			k++
+		case l[i+1][k] >= l[i][k+1]:
+			i++
+		default:
+			k++
+		}
+	}
+	for k := 1; k <= m; k++ {
+		if _, ok := out[k]; !ok {
+			out[k] = 1000 + k
+		}
+	}
+	return out
+}
